@@ -564,19 +564,82 @@ def c09d(F, R):
         raise Anchor("Lexer::new does not build a Lexer literal")
     params = [x.get("name") for x in f["hir"]["params"]]
     allowed = {"into", "chars", "collect", "to_string", "to_owned", "as_str", "as_ref", "clone", "iter", "copied", "cloned", "char_indices", "borrow"}
+    lets = {}
+    for s_ in walk(f["hir"]["value"], pats=False):
+        if s_.get("k") == "Let" and s_["pat"].get("k") == "PBinding" and s_.get("init"):
+            lets[s_["pat"]["lid"]] = s_["init"]
+    plid = f["hir"]["params"][0].get("lid")
+
+    def expand(e, depth=0):
+        """expression nodes of e with locals replaced by their initialisers"""
+        out = []
+        for x in walk(e, pats=False):
+            out.append(x)
+            if x.get("k") == "Path" and x.get("res_kind") == "Local" and x.get("lid") in lets and depth < 5:
+                out += expand(lets[x["lid"]], depth + 1)
+        return out
     for fld in st[0]["fields"]:
         e = fld["e"]
-        uses_text = any(x.get("k") == "Path" and x.get("res") == params[0] for x in walk(e, pats=False))
+        nodes = expand(e)
+        uses_text = any(x.get("k") == "Path" and x.get("res_kind") == "Local" and x.get("lid") == plid for x in nodes)
         if not uses_text:
             continue
-        chain = [m["name"] for m in walk(e, pats=False) if m.get("k") == "MethodCall"]
-        calls = [short(callee_of(c) or "") for c in walk(e, pats=False) if c.get("k") == "Call"]
+        chain = [m["name"] for m in nodes if m.get("k") == "MethodCall"]
+        calls = [short(callee_of(c) or "") for c in nodes if c.get("k") == "Call"]
         extra = [m for m in chain if m not in allowed] + [c for c in calls if c not in ("from", "new", "into")]
         key = f"Lexer.{fld['name']}"
         if extra:
             R.bad(key, f"Lexer::new stores the text through `{'.'.join(chain)}`: {extra} can change its length, so every reported raw offset (and any index into the caller's text) is shifted", loc(e))
         else:
             R.ok(key, detail=f"Lexer.{fld['name']} = text.{'.'.join(chain)}() (length-preserving)")
+
+
+@rule("C09", "C09.e.initial-cursor-state", floor=2)
+def c09e(F, R):
+    """the cursor state Lexer::new starts in equals the state consume_char leaves at the first character of any later line (otherwise the first line, or a file with a leading blank line, is positioned differently)"""
+    lm = inherent_methods(F, LEXER)
+    cc = F.fn(lm["consume_char"])
+    C0 = K = RINC = None
+    for i in walk(cc["hir"]["value"], pats=False):
+        if i.get("k") == "If" and any(x.get("k") == "Lit" and x["lit"].get("v") == "\n" for x in walk(i["cond"], pats=False)):
+            for a in walk(i["then"], pats=False):
+                if a.get("k") == "Assign" and ekey(a["l"]).endswith(".col"):
+                    C0 = lit_value(a["r"])
+                if a.get("k") == "AssignOp" and a["op"] == "AddAssign" and ekey(a["l"]).endswith(".row"):
+                    RINC = lit_value(a["r"])
+            for a in walk(i.get("else") or {}, pats=False):
+                if a.get("k") == "AssignOp" and a["op"] == "AddAssign" and ekey(a["l"]).endswith(".col"):
+                    K = lit_value(a["r"])
+    if None in (C0, K, RINC):
+        R.bad("consume_char|shape", f"UNEXTRACTABLE: consume_char's newline / non-newline updates not found (col reset {C0}, col step {K}, row step {RINC})", cc["sp"])
+        return
+    R.ok("consume_char", detail=f"newline: row += {RINC}, col = {C0}; other: col += {K}")
+    nf = F.fn(lm["new"])
+    st = [n for n in walk(nf["hir"]["value"], pats=False) if n.get("k") == "Struct" and (n.get("res") or "").endswith("lexer::Lexer")]
+    flds = {x["name"]: peel(x["e"]) for x in st[0]["fields"]}
+    # resolve `let (row, col) = if first == '\n' { (r1, c1) } else { (r0, c0) }`
+    state = {}
+    for s_ in walk(nf["hir"]["value"], pats=False):
+        if s_.get("k") == "Let" and s_["pat"].get("k") == "PTuple" and s_.get("init"):
+            names = [p_.get("name") for p_ in s_["pat"]["pats"]]
+            init = peel(s_["init"])
+            if init.get("k") == "If" and any(x.get("k") == "Lit" and x["lit"].get("v") == "\n" for x in walk(init["cond"], pats=False)):
+                tv, ev = peel(init["then"]), peel(init.get("else") or {})
+                if tv.get("k") == "Tup" and ev.get("k") == "Tup":
+                    for nm, a, b in zip(names, tv["elems"], ev["elems"]):
+                        state[nm] = (lit_value(a), lit_value(b))
+    def val(fname):
+        e = flds.get(fname, {})
+        if e.get("k") == "Path" and e.get("res") in state:
+            return state[e["res"]]
+        v = lit_value(e)
+        return (v, v)
+    row, col = val("row"), val("col")
+    want_row, want_col = (RINC, 0), (C0, C0 + K)
+    if row == want_row and col == want_col:
+        R.ok("initial-state", detail=f"Lexer::new: at a leading newline (row, col) = ({row[0]}, {col[0]}), otherwise ({row[1]}, {col[1]}) = the post-newline state")
+    else:
+        R.bad("initial-state", f"Lexer::new starts with (row, col) = ({row[0]}, {col[0]}) if the text begins with a newline and ({row[1]}, {col[1]}) otherwise; consume_char reaches the first character of every later line with ({want_row[1]}, {want_col[1]}) and a newline with (+{want_row[0]}, {want_col[0]}): first-line columns / line numbers after a leading blank line are shifted", nf["sp"])
 
 
 @rule("C09", "C09.c.index-bases", floor=7)
